@@ -204,11 +204,17 @@ func c30(c *report.Check, thorough bool, only string) {
 		var sig []byte
 		if kc.op == "get" {
 			var resp *protocol.KeylessGetCertificateResponse
-			resp, gerr = b.srv.GetCertificate(caller.ctx(), &protocol.KeylessGetCertificateRequest{Proof: proof, Hostname: h.raw})
+			gerr = safely(func() (e error) {
+				resp, e = b.srv.GetCertificate(caller.ctx(), &protocol.KeylessGetCertificateRequest{Proof: proof, Hostname: h.raw})
+				return
+			})
 			chain = resp.GetCertificates()
 		} else {
 			var resp *protocol.KeylessSignResponse
-			resp, gerr = b.srv.Sign(caller.ctx(), &protocol.KeylessSignRequest{Proof: proof, Hostname: h.raw, Algo: protocol.KeylessSignRequest_HashAlgorithm(kc.algo), Digest: digest})
+			gerr = safely(func() (e error) {
+				resp, e = b.srv.Sign(caller.ctx(), &protocol.KeylessSignRequest{Proof: proof, Hostname: h.raw, Algo: protocol.KeylessSignRequest_HashAlgorithm(kc.algo), Digest: digest})
+				return
+			})
 			sig = resp.GetSignature()
 		}
 		after := b.kv.snapshot()
@@ -430,6 +436,7 @@ func c30(c *report.Check, thorough bool, only string) {
 	c.Set("evaluations", evals+evalT+evalL)
 	c.Set("rpc_cases", evals)
 	c.Set("rpc_served", served)
+	c.Set("handler_panics", int(handlerPanics.Load()))
 	c.Set("rpc_eligible_but_refused", eligibleRefused)
 	c.Set("ttl_cases", evalT)
 	c.Set("loader_cases", evalL)
